@@ -2,7 +2,7 @@
    Shared by the reference semantics (Sem.v) and the machine model (Machine.v):
    the language theorems are parametric in what these operators compute. *)
 From Coq Require Import ZArith String Ascii List Bool PrimFloat.
-From Bardolph Require Import Base.PyFloat Gen.Codes Time.TimeSpec Time.TimePattern.
+From Bardolph Require Import Base.PyFloat Gen.Codes Time.TimeSpec Time.TimeCore.
 Open Scope string_scope.
 Open Scope list_scope.
 Import ListNotations.
